@@ -466,7 +466,7 @@ def finish(name):
 # change c: get_motl_subset collects the pieces and concatenates once -- original function text (unmodified tree)
 # =====================================================================================================================
 def orig_get_motl_subset(self, feature_values, feature_id="tomo_id", return_df=False, reset_index=True):
-    if isinstance(feature_values, list):
+    if isinstance(feature_values, (list, np.ndarray)):
         feature_values = np.array(feature_values)
     else:
         feature_values = np.array([feature_values])
